@@ -108,6 +108,31 @@ HARNESS(merge_dots_keeps_everything_else, 10) {
 '''
 
 
+DASH_HARNESS = r"""
+// K-C01-f: canonicalize_dash (used by the mi and mtext arms of clean_mathml: the token text is REPLACED by what it returns)
+HARNESS(dash_normalization_only_for_all_hyphen_tokens, 12) {
+    let b: [u8; 5] = [sym::u8(), sym::u8(), sym::u8(), sym::u8(), sym::u8()];
+    let n = sym::below(6);
+    let mut i = 0; let mut other = false;
+    while i < 5 { sym::assume(b[i] == 45u8 || b[i] == 97u8 || b[i] == 32u8); if i < n && b[i] != 45u8 { other = true; } i += 1; }     // '-', 'a', ' '
+    let text = unsafe { core::str::from_utf8_unchecked(&b[..n]) };
+    let r = canonicalize_dash(text);
+    cover!(r.is_some() && n == 3, "three hyphens become a dash reachable");
+    cover!(r.is_none() && other && n >= 4, "token with hyphens and other characters reachable");
+    if let Some(d) = r {
+        assert!(!other && n >= 2, "a token that holds other characters besides hyphens is replaced entirely by a dash: the other characters are lost");
+        assert!(d == "\u{2014}" || d == "\u{2015}", "replacement is not one of the documented dashes");
+    }
+}
+"""
+
+
+def api_dash(vals=None, out=None):
+    res = mcprobe([("mathml", "<math><mi>x</mi><mo>=</mo><mtext>yes---no</mtext></math>"), ("mathml", "<math><mi>a----b</mi></math>")])
+    bad = [r for r in res if r[0] != "OK" or not ("yes---no" in r[1] or "a----b" in r[1])]
+    return bool(bad), {"script": "set_mathml(token 'yes---no' / 'a----b'): the token text must survive", "results": res}
+
+
 def api_msubsup(vals=None, out=None):
     res = mcprobe([("mathml", "<math><msubsup><mi>x</mi><mn>1</mn><mrow/></msubsup></math>"), ("mathml", "<math><mi>a</mi><mo>+</mo><msubsup><mi>x</mi><mn>1</mn><mtext></mtext></msubsup></math>")])
     bad = [r for r in res if r[0] != "OK" or ">x<" not in r[1] or ">1<" not in r[1]]
@@ -131,6 +156,17 @@ def build(run):
     run.kani(crate, [dict(id="K-C01-e.1.empty_script_elimination", harness="empty_script_elimination_drops_nothing_visible", api=lambda v, o: api_msubsup(),
                           role=lambda v, o: "partly-empty-script-dropped", covers=["dropped msubsup reachable", "kept element with one empty script reachable"],
                           claim="is_empty_script => base and every script are empty")], timeout=300)
+
+    # ---- K-C01-f: canonicalize_dash ------------------------------------------------------------------------------------------------
+    import tables, rxsmt
+    cd = cm.find("fn canonicalize_dash")
+    run.uses(cd)
+    rx = tables.used_lazy_regexes(c, cd.text, run)
+    crate_f = kani_run.Crate("c01dash", (rxsmt.mock_statics(rx) if rx else "") + cd.text + DASH_HARNESS, native_deps={"regex": '"1.10"', "lazy_static": '"1.4"'} if rx else None)
+    run.bound("K-C01-f", "canonicalize_dash verbatim on every text of 0..5 chars over {-, a, space}" + ("; regexes it uses replaced by generated DFA matchers: %s" % ", ".join(n for n, _ in rx) if rx else ""))
+    run.kani(crate_f, [dict(id="K-C01-f.dash_normalization", harness="dash_normalization_only_for_all_hyphen_tokens", api=lambda v, o: api_dash(), role=lambda v, o: "token-replaced-by-dash",
+                            covers=["three hyphens become a dash reachable", "token with hyphens and other characters reachable"],
+                            claim="Some(dash) only for tokens made of hyphens alone (>= 2), and the dash is U+2014 or U+2015")], timeout=900)
 
     # ---- K-C01-a: merge_prime_text ----------------------------------------------------------------------------------------------
     mp = cm.find("fn merge_prime_text")
